@@ -847,8 +847,14 @@ func (vsc *virtualServerConfigurator) GenerateVirtualServerConfig(
 		}
 	}
 
-	for mapName, apiKeyClients := range policiesCfg.APIKey.ClientMap {
-		maps = append(maps, *generateAPIKeyClientMap(mapName, apiKeyClients))
+	// map iteration order is random: emit the API Key maps in the order of their names
+	apiKeyMapNames := make([]string, 0, len(policiesCfg.APIKey.ClientMap))
+	for mapName := range policiesCfg.APIKey.ClientMap {
+		apiKeyMapNames = append(apiKeyMapNames, mapName)
+	}
+	sort.Strings(apiKeyMapNames)
+	for _, mapName := range apiKeyMapNames {
+		maps = append(maps, *generateAPIKeyClientMap(mapName, policiesCfg.APIKey.ClientMap[mapName]))
 	}
 
 	httpSnippets := generateSnippets(vsc.enableSnippets, vsEx.VirtualServer.Spec.HTTPSnippets, []string{})
@@ -1477,6 +1483,10 @@ func generateAPIKeyClients(secretData map[string][]byte) []apiKeyClient {
 		sha256Hash := hex.EncodeToString(h.Sum(nil))
 		clients = append(clients, apiKeyClient{ClientID: clientID, HashedKey: sha256Hash}) //
 	}
+	// map iteration order is random: sort so that the generated config does not change between renderings
+	sort.Slice(clients, func(i, j int) bool {
+		return clients[i].ClientID < clients[j].ClientID
+	})
 	return clients
 }
 
